@@ -27,6 +27,25 @@ func replayOpenAPI(eng *Engine) string {
 	return runKitReplay(eng, replayOpenAPISrc, "zz_govc_openapi_test.go", "TestGovcOpenAPIReplay", "OpenAPI export of documents on the real code (package kit):")
 }
 
+//go:embed replay_layout_test.go.tmpl
+var replayLayoutSrc string
+
+// layoutChecks: BOUNDED check of the real scanner under C08 and C12 (see the template).
+func (e *Engine) layoutChecks(id string) []fdResult {
+	if id != "C08" && id != "C12" {
+		return nil
+	}
+	out := runPkgReplayEnv(e, "scanner", replayLayoutSrc, "zz_govc_layout_test.go", "TestGovcLayout", "line-end rewrites on the real scanner:")
+	return []fdResult{{Name: "scanner.Scanner/bounded/line-ends#1", Props: []string{id},
+		Goal: "BOUNDED (built-in and testdata documents; all line ends LF -> CRLF / CR, and for 60 documents each single line end): rewriting line ends changes neither the lexeme kinds nor the keywords and parameters reported (bounded sample, not a proof)",
+		OK:   strings.Contains(out, "DONE tried=") && !strings.Contains(out, "REPRODUCED input"), Detail: out}}
+}
+
+func runPkgReplayEnv(eng *Engine, pkgDir, src, file, test, title string) string {
+	os.Setenv("GOVC_REPO_TESTDATA", filepath.Join(eng.repo, "testdata"))
+	return runPkgReplay(eng, pkgDir, src, file, test, title)
+}
+
 //go:embed replay_usedtypes_test.go.tmpl
 var replayUsedTypesSrc string
 
